@@ -13,7 +13,7 @@ func ProjectPath(p cty.Path) []any {
 	for _, st := range p {
 		switch s := st.(type) {
 		case cty.GetAttrStep:
-			out = append(out, J{"s": "attr", "n": s.Name})
+			out = append(out, J{"s": "attr", "n": absName(s.Name)})
 		case cty.IndexStep:
 			out = append(out, J{"s": "idx", "key": Project(s.Key)})
 		default:
@@ -28,7 +28,7 @@ func ConcretizePath(l []any) cty.Path {
 	for _, sj := range l {
 		s := asJ(sj)
 		if asS(s["s"]) == "attr" {
-			p = p.GetAttr(asS(s["n"]))
+			p = p.GetAttr(realName(asS(s["n"])))
 		} else {
 			p = p.Index(Concretize(asJ(s["key"]), 0))
 		}
